@@ -133,6 +133,12 @@ class Instance:
     def snapshot(self) -> str:
         """Canonical hash of K; stores one representative directory per distinct K."""
         lst = self.listing()
+        c0 = os.path.join(self.root, "cache")
+        if not lst and os.path.isdir(c0) and any(fs for _d, _s, fs in os.walk(c0)):
+            has_records = any(f for _d, _s, fs in os.walk(c0) for f in fs
+                              if f not in (".gitignore", "CACHEDIR.TAG", "missing_stubs"))
+            if has_records:
+                raise RuntimeError("cache directory has files but the store lists no records (harness bug)")
         h = hashlib.sha1(repr(lst).encode()).hexdigest()[:20]
         dst = os.path.join(self.snapdir, h)
         if not os.path.isdir(dst):
